@@ -79,8 +79,8 @@ impl AddressLookupStream {
 //@rw R7 1
 //@- self.get_mut()
 //@+ self
-//@rw R7 1
-//@- Pin::new(&mut inner).poll_next(cx)
+//@rwx R7 1
+//@- Pin::new\((?:&mut )?inner\)\.poll_next\(cx\)
 //@+ inner.poll_next(cx)
 //@rw D5 1
 //@- Poll<Option<Self::Item>>
